@@ -462,3 +462,8 @@ class Snapshot(Sym):
     def __init__(self, obj, heap):
         self.obj, self.heap = obj, dict(heap)
 JOIN_SP = z3.Function("join_space", z3.ArraySort(z3.IntSort(), z3.StringSort()), z3.IntSort(), z3.StringSort())
+CSV_LEN = z3.Function("csv_len", z3.StringSort(), z3.IntSort())
+CSV_ARR = z3.Function("csv_arr", z3.StringSort(), z3.ArraySort(z3.IntSort(), z3.StringSort()))
+# shaped strings for the range codec: decimal text of n, and the text "a-b" (uninterpreted: only their decoding matters)
+NUMSTR = z3.Function("decimal_text", z3.IntSort(), z3.StringSort())
+RNGSTR = z3.Function("range_text", z3.IntSort(), z3.IntSort(), z3.StringSort())
